@@ -288,11 +288,11 @@ theorem louvainUndLoop_labels (s γ : ℚ) :
         simp only [hm'] at h
         have hact := passes_active (undKern n) L.nh _ _ _ _ _ (by simpa [pst0] using ActiveInv_idLab (n := n) L.nh) hp
         have hci' := CiInv_step L.nh L.ci x.m m' hci hact hm'
-        by_cases hstop : qTraceDot (aggUpper W m') s γ - L.qprev < thr
+        by_cases hstop : (L.hasPrev && decide (qTraceDot (aggUpper W m') s γ - L.qprev < thr)) = true
         · simp only [hstop, if_true] at h
           cases h
           exact hacc
-        · simp only [hstop, if_false] at h
+        · simp only [hstop] at h
           refine ih _ _ _ _ _ hci' ?_ h
           intro p hp'
           rcases List.mem_cons.mp hp' with rfl | hp'
@@ -388,7 +388,7 @@ theorem levels_labels_exact (W : RMat n) (γ : ℚ) (ds : List ℕ) (out : Out n
       simp only at h
       cases h
       have := louvainUndLoop_labels (total W) γ _ _ _ _ _ _ (by simpa [lv0] using CiInv_idLab (n := n))
-        (by intro p hp; simp only [lv0, List.mem_singleton] at hp; subst hp; exact CiInv_idLab.exact) hl
+        (by intro p hp; simp [lv0] at hp) hl
       intro p hp
       exact this p (List.mem_reverse.mp hp)
   · unfold louvainSign at h
@@ -401,7 +401,7 @@ theorem levels_labels_exact (W : RMat n) (γ : ℚ) (ds : List ℕ) (out : Out n
       simp only at h
       cases h
       have := louvainSignLoop_labels _ _ _ _ γ _ _ _ _ _ _ _ _ (by simpa using CiInv_idLab (n := n))
-        (by intro p hp; simp only [List.mem_singleton] at hp; subst hp; exact CiInv_idLab.exact) hl
+        (by intro p hp; simp at hp) hl
       intro p hp
       exact this p (List.mem_reverse.mp hp)
   · unfold communityLouvain at h
